@@ -417,8 +417,54 @@ func runAgg(prop string, res *Result, pool *DrvPool, r *Rng) {
 				if fmt.Sprint(all) != fmt.Sprint(want) {
 					bad(fmt.Sprintf("bucket ids %v are not the snapshot's ids %v", all, want))
 				}
-				if firstBuckets != 1 {
-					bad(fmt.Sprintf("%d buckets flagged first", firstBuckets))
+				wantFirst := 0
+				for i := range c.gs {
+					if c.gs[i].First {
+						wantFirst = 1
+					}
+				}
+				if firstBuckets != wantFirst {
+					bad(fmt.Sprintf("%d buckets flagged first, %d goroutines of the snapshot are", firstBuckets, wantFirst))
+				}
+				// the caller owns the snapshot: after its goroutine list was edited (one goroutine
+				// removed), aggregating again accounts for the list as it is now
+				if len(c.gs) >= 2 && len(c.gs) <= 200 {
+					snap.Goroutines = snap.Goroutines[:len(snap.Goroutines)-1]
+					var a2 *stack.Aggregated
+					if p := catch(func() { a2 = snap.Aggregate(lvl) }); p != nil {
+						bad(fmt.Sprintf("Aggregate panicked after the goroutine list was edited: %v", p))
+					} else {
+						var all2, want2 []int
+						for _, b := range a2.Buckets {
+							all2 = append(all2, b.IDs...)
+						}
+						for i := 0; i+1 < len(c.gs); i++ {
+							want2 = append(want2, c.gs[i].ID)
+						}
+						sort.Ints(all2)
+						sort.Ints(want2)
+						if fmt.Sprint(all2) != fmt.Sprint(want2) {
+							bad(fmt.Sprintf("after the last goroutine was removed from Snapshot.Goroutines, aggregating again at the same level gives ids %v, the snapshot now holds %v", all2, want2))
+						}
+						if a2.Snapshot != snap {
+							bad("the second aggregation does not refer back to its snapshot")
+						}
+					}
+					// and a copy of the snapshot value with another list
+					cp := *snapshotOf(c.gs)
+					catch(func() { cp.Aggregate(lvl) })
+					cp2 := cp
+					cp2.Goroutines = cp.Goroutines[:1]
+					var a3 *stack.Aggregated
+					if p := catch(func() { a3 = cp2.Aggregate(lvl) }); p == nil && a3 != nil {
+						n3 := 0
+						for _, b := range a3.Buckets {
+							n3 += len(b.IDs)
+						}
+						if n3 != 1 || a3.Snapshot != &cp2 {
+							bad(fmt.Sprintf("a copy of an aggregated snapshot value, cut to one goroutine, aggregates to %d ids (refers back to its own snapshot: %v)", n3, a3.Snapshot == &cp2))
+						}
+					}
 				}
 				if a.Snapshot != snap {
 					bad("aggregation does not refer back to its snapshot")
